@@ -35,7 +35,22 @@ def run(trace, render=None):
     S = e1.Session(show=init.get('show', True), f_text=mrender.r_top(init['f']) if init.get('hasf') else None,
                    b_text=mrender.r_top(init['b']) if init.get('hasb') else None)
     gdb.calls[:] = []
+    gdb.breakpoint_objects[:] = []
+    gdb.command_objects[:] = []
     P = plugin.Plugin(S.output, S.cm, S.ctl, S.ctl)
+    bps = dict()
+    for spec, obj in gdb.breakpoint_objects:
+        bps[spec] = obj
+    cmds = dict(gdb.command_objects)
+    need = ['wl_connection_destroy', 'wl_closure_invoke', 'wl_closure_dispatch', 'serialize_closure']
+    if any(n not in bps for n in need) or 'wl' not in cmds:
+        raise MachineryError('the plugin no longer installs the breakpoints / commands the harness drives: %s / %s' % (sorted(bps), sorted(cmds)))
+
+    def addr_int(tag):
+        import re as _re
+        mm = _re.search(r'0x([0-9a-fA-F]+)', tag)
+        return int(mm.group(1), 16) if mm else 0xdead0000 + (sum(ord(ch) for ch in tag) % 4096)
+    nhit = [0]
     for evrec in trace['events']:
         ev = evrec['in']
         nh = len(S.hist())
@@ -45,13 +60,23 @@ def run(trace, render=None):
             if ev['e'] == 'hit':
                 gdb.thread_num = ev['thread']
                 cid, msg = m.parse.message(printer.line({'tag': '', 't': ev['t'], 'm': ev['m']}, **render))
-                P.process_message(ev['addr'], msg)
-                obs['halt'] = bool(P.paused())
+                # through the breakpoint object GDB would call: its stop() decides whether the program halts
+                nhit[0] += 1
+                bp = bps['serialize_closure'] if msg.sent else bps[['wl_closure_invoke', 'wl_closure_dispatch'][nhit[0] % 2]]
+                conn_id = 'gdb_conn:' + hex(addr_int(ev['addr']))
+                bp.message_extractor = lambda conn_id=conn_id, msg=msg: (conn_id, msg)
+                obs['halt'] = bool(bp.stop())
             elif ev['e'] == 'destroy':
-                P.close_connection(ev['addr'])
-                obs['halt'] = False          # WlConnectionDestroyBreakpoint.stop() returns False
+                gdb.frame_vars['connection'] = addr_int(ev['addr'])
+                obs['halt'] = bool(bps['wl_connection_destroy'].stop())
             elif ev['e'] == 'invoke':
-                P.invoke_command(e1.command_text(ev['cmd']))
+                text = e1.command_text(ev['cmd'])
+                first = text.split(' ', 1)[0]
+                sub = [n for n in cmds if n.startswith('wl') and n not in ('wl', 'wayland') and first and n[2:].startswith(first)]
+                if len(sub) == 1 and nhit[0] % 2:
+                    cmds[sub[0]].invoke(text[len(first):].strip(), False)      # `wlfilter x`
+                else:
+                    cmds[['wl', 'w', 'wayland'][nhit[0] % 3]].invoke(text, False)   # `wl filter x`
                 obs['exec'] = 'quit' if 'quit' in gdb.calls else ('continue' if 'continue' in gdb.calls else 'none')
                 obs['halt'] = obs['exec'] == 'none' and bool(P.paused())
             else:
